@@ -55,6 +55,22 @@ def gen(rng, tier):
                 if line is None:
                     continue
                 cs.append(Case(line, cls="%s/%s" % (f, cname), expect=totality, meta={"why": "not Ok/Err on attacker bytes"}))
+    # authentic boxes whose ciphertext puts the one-time authenticator's accumulator on a final-reduction corner (≡ 0..4, p−1.. mod p):
+    # anyone holding the key can make them; every opening form returns the message (and Err after a tag change), never a panic
+    for i in range(24 if tier == "quick" else 200):
+        which = "secret" if i % 2 == 0 else "box"
+        I = CornerInst(rng, which)
+        for form in OPEN_FORMS:
+            f = form.split(" ")[0]
+            secret_form = f.startswith(("secretbox", "sbobj"))
+            if "seal" in f or (secret_form != (which == "secret") and "afternm" not in f) or ("afternm" in f and which == "secret"):
+                continue
+            cs.append(Case(open_line(form, I), cls="authenticator-corner/" + f, expect=(lambda a, e="ok " + hx(I.msg): a == e), meta={"why": "authentic box on a Poly1305 reduction corner"}))
+            ct = I.sb if which == "secret" else I.bx
+            t = bytearray(ct); t[3] ^= 1
+            line = open_line(form, I, ct=bytes(t))
+            if line:
+                cs.append(Case(line, cls="authenticator-corner-flip/" + f, expect=totality, meta={"why": "forged box on a Poly1305 reduction corner"}))
     # authentic boxes of a length the PEER chooses, opened into a fixed receive buffer that is longer than the message
     for n in (0, 1, 15, 16, 17, 40, 100):
         cs.extend(oversized_authentic(Inst(rng, n, style=n), (1, 64, 200)))
